@@ -46,11 +46,11 @@ def _v5(repo, mod):
     return replace_node(mod, x.test, "to_cover_config.enable_inline_pynguin_no_cover")
 
 
-@variant("C08", "type-checking-blocks-kept", TR, "C08.sources", "TYPE_CHECKING blocks no longer excluded")
+@variant("C08", "type-checking-blocks-kept", TR, "C08.pipeline", "TYPE_CHECKING blocks no longer excluded")
 def _v6(repo, mod):
     fn = repo.func(TR, "ModuleAstInfo._find_excluded_block_lines")
-    s = find_stmt(fn, lambda s: isinstance(s, ast.If) and norm(s.test) == "_is_type_checking(node)")
-    return delete_stmt(mod, s)
+    s = find_stmt(fn, lambda s: isinstance(s, ast.If) and "_is_type_checking(node)" in norm(s.test))
+    return replace_node(mod, s.test, "_is_main(node)")
 
 
 @variant("C08", "only-cover-beats-no-cover", TR, "C08.priority", "_in_cover consults only_cover before no_cover")
@@ -120,3 +120,63 @@ def _vl6(repo, mod):
     fn = repo.func(TR, "AstInfo.should_cover_line")
     c = find_node(fn, lambda n: isinstance(n, ast.Call) and norm(n) == "self._else_lines(branch_node)")
     return replace_node(mod, c, "()")
+
+
+@variant("C08", "async-for-not-a-block-head", TR, "C08.pipeline", "ast.AsyncFor dropped from should_cover_line (the repaired defect)")
+def _v60(repo, mod):
+    from sa.selftest.harness import text_edit
+    return text_edit(mod, "self.ast, (ast.If, ast.For, ast.AsyncFor, ast.While, ast.Match, ast.Try, TryStar)", "self.ast, (ast.If, ast.For, ast.While, ast.Match, ast.Try, TryStar)")
+
+
+@variant("C08", "else-of-type-checking-excluded", TR, "C08.pipeline", "whole if statement excluded (the repaired defect)")
+def _v61(repo, mod):
+    from sa.selftest.harness import text_edit
+    return text_edit(mod, "end = scope_line_range(node.body[-1])[1]", "end = scope_line_range(node)[1]")
+
+
+@variant("C08", "last-definition-of-a-name-wins", TR, "C08.pipeline", "only the setter of a property pair excluded (the repaired defect)")
+def _v62(repo, mod):
+    from sa.selftest.harness import text_edit
+    return text_edit(mod, "scope_names.setdefault(scope_name_, []).append(lineno)", "scope_names[scope_name_] = [lineno]")
+
+
+@variant("C08", "only-cover-does-not-reach-nested-definitions", TR, "C08.pipeline", "_in_cover without the enclosing-definition disjunct (the repaired defect)")
+def _v63(repo, mod):
+    fn = repo.func(TR, "AstInfo._in_cover")
+    r = find_stmt(fn, lambda s: isinstance(s, ast.Return) and isinstance(s.value, ast.BoolOp))
+    return replace_node(mod, r.value.values[-1], "False")
+
+
+@variant("C08", "definition-in-excluded-block-kept", TR, "C08.pipeline", "should_be_covered without the excluded-block test (the repaired defect)")
+def _v64(repo, mod):
+    fn = repo.func(TR, "AstInfo.should_be_covered")
+    r = find_stmt(fn, lambda s: isinstance(s, ast.Return))
+    return replace_node(mod, r.value.values[-1], "True")
+
+
+@variant("C08", "markers-numbered-by-splitlines", TR, "C08.pipeline", "form feed shifts marker lines (the repaired defect)")
+def _v65(repo, mod):
+    fn = repo.func(TR, "ModuleAstInfo._find_lines_in_source_code")
+    c = find_node(fn, lambda n: isinstance(n, ast.Call) and norm(n.func) == "re.split")
+    return replace_node(mod, c, "source_code.splitlines()")
+
+
+@variant("C08", "source-read-as-plain-utf8", "pynguin.analyses.module", "C08.read", "BOM / encoding declaration not honoured (the repaired defect)")
+def _v66(repo, mod):
+    fn = repo.func("pynguin.analyses.module", "read_module_ast")
+    w = find_stmt(fn, lambda s: isinstance(s, ast.With))
+    return replace_node(mod, w, "source_code = Path(module_path).read_text(encoding='utf-8')")
+
+
+@variant("C08", "twin-source-read-through-tokenize-bytes", "pynguin.analyses.module", None, "equivalent: decode the bytes with the detected encoding")
+def _v67(repo, mod):
+    fn = repo.func("pynguin.analyses.module", "read_module_ast")
+    w = find_stmt(fn, lambda s: isinstance(s, ast.With))
+    ind = " " * w.col_offset
+    return replace_node(mod, w, f"source_file = tokenize.open(module_path)\n{ind}source_code = source_file.read()\n{ind}source_file.close()")
+
+
+@variant("C08", "twin-block-range-by-last-body-statement", TR, None, "equivalent: end of the guarded block via end_lineno")
+def _v68(repo, mod):
+    from sa.selftest.harness import text_edit
+    return text_edit(mod, "end = scope_line_range(node.body[-1])[1]", "end = node.body[-1].end_lineno or start")
